@@ -209,6 +209,28 @@ theorem C04_energy (ast : Attr.St Rat) (p : AttackP Rat) (tgt : Int) (hp : Rat) 
     rw [Option.map_map, Option.map_map] at h2
     exact h2
 
+/-- **Listener adjustments are per hit**: what a hit listener adds to the snapshots of the hit on
+one defender is seen by that hit only — every other hit of the same attack is computed from the
+attacker's and defender's own stats, as if no listener existed. -/
+theorem C04_listener_adjustment_per_hit (s : St Rat) (p : AttackP Rat) (a : HitAdj Rat) (tgt : Int) (draw : Rat)
+    (h0 : a.onlyTgt ≠ 0) :
+    (tgt ≠ a.onlyTgt → hitFactors s { p with adj := some a } tgt draw = hitFactors s { p with adj := none } tgt draw) ∧
+    hitFactors s { p with adj := some a } a.onlyTgt draw =
+      factors { statsOf s p.src with allDmgPct := (statsOf s p.src).allDmgPct + a.attDmgAdd,
+                                     critChance := (statsOf s p.src).critChance + a.attCritAdd }
+              { statsOf s a.onlyTgt with allTaken := (statsOf s a.onlyTgt).allTaken + a.defTakenAdd }
+              (stanceOfU s a.onlyTgt) { p with adj := some a } (hitRatioOf p) draw := by
+  have hf : ∀ (x : Option (HitAdj Rat)) (A D : C) (st r dr : Rat),
+      factors A D st { p with adj := x } r dr = factors A D st p r dr := fun _ _ _ _ _ _ => rfl
+  constructor
+  · intro hne
+    have hn : adjApplies a tgt = false := by simp [adjApplies, h0, Ne.symm hne]
+    simp only [hitFactors, attackerFor, defenderFor, hn, hitRatioOf, hf]
+    rfl
+  · have hy : adjApplies a a.onlyTgt = true := by simp [adjApplies]
+    simp only [hitFactors, attackerFor, defenderFor, hy, hitRatioOf, hf]
+    rfl
+
 /-! ### non-vacuity: a concrete hit where the by-party distinction matters -/
 example : ∃ (a d : C) (p : AttackP Rat), (factors a d 0 p 1 (1/2)).vul = 13/10 ∧
     (factors { a with taken := [0, 0, 3/10] } { d with taken := [] } 0 p 1 (1/2)).vul = 1 := by
